@@ -318,6 +318,8 @@ impl ISocket for ReqSocket {
       Command::Stop => {
         self.ingress_engine.close();
         self.reply_available_notifier.notify_waiters();
+        // Release a send() that is waiting for its first peer.
+        self.load_balancer.deactivate();
       }
       _ => return Ok(false),
     }
